@@ -415,7 +415,9 @@ pub struct Printer<'a> {
 }
 
 fn identlike(c: char) -> bool {
-    c.is_alphanumeric() || c == '_'
+    // letters, digits, `_`, and the characters that may continue an identifier without being
+    // alphanumeric (combining marks, the middle dot, the undertie, Indic vowel signs)
+    c.is_alphanumeric() || c == '_' || matches!(c, '\u{300}'..='\u{36f}' | '\u{b7}' | '\u{203f}' | '\u{2040}' | '\u{93a}'..='\u{94f}')
 }
 
 impl<'a> Printer<'a> {
